@@ -26,7 +26,8 @@ def catalogue():
     return {
         'TStr': ['x', '', 'é'], 'TBytes': [b'x'], 'TInt': [1, 0, 200],
         'TBool': [True, False], 'TFloat': [1.5], 'TDict': [{}, {'k': 'v'}],
-        'TList': [[1]], 'TNone': [None], 'TOther': [Weird(), (1, 2)],
+        'TList': [[1]], 'TNone': [None],
+        'TOther': [Weird(), (1, 2), bytearray(b'x'), memoryview(b'x')],
     }
 
 
